@@ -8,5 +8,6 @@ CONSTANTS Kinds <- SomeKinds
   EOF_IS_BROKEN = TRUE
   TRIM_TWICE = TRUE
   USED_HOISTED = FALSE
+  SHARED_SEEN = FALSE
 INVARIANTS TypeOK PropertyHolds
 CHECK_DEADLOCK FALSE
